@@ -115,6 +115,7 @@ type Exec struct {
 	lastRun  *gor
 	start    time.Time
 	env      func() []Action
+	envAlt   func() []Action
 	threads  int
 	finished int
 	idle     time.Duration
@@ -222,6 +223,11 @@ func (x *Exec) Now() time.Duration { return time.Since(x.start) }
 // SetEnv registers the function that lists the enabled environment actions in
 // canonical order. It is called by the explorer at quiescent points only.
 func (x *Exec) SetEnv(f func() []Action) { x.env = f }
+
+// SetEnvAlt registers a second list of environment actions, offered after the tick: they are never the default
+// choice, not even when nothing else is enabled and time would otherwise pass (events that may strike while the
+// system is idle, e.g. a fault on an outstanding long poll).
+func (x *Exec) SetEnvAlt(f func() []Action) { x.envAlt = f }
 
 // Notify tells the explorer that something observable happened (ends a tick).
 //
@@ -689,6 +695,12 @@ func (x *Exec) enabled() []choice {
 	}
 	if x.Now() < x.Cfg.Horizon && !(x.Cfg.NoTick && len(cs) > 0) {
 		cs = append(cs, choice{label: "tick", tick: true})
+	}
+	if x.envAlt != nil && x.Now() < x.Cfg.Horizon {
+		acts := x.envAlt()
+		for i := range acts {
+			cs = append(cs, choice{label: acts[i].Label, act: &acts[i]})
+		}
 	}
 	return cs
 }
